@@ -261,9 +261,8 @@ class BlockMessageField(BlockBindMessageField[F]):
     @override(Block)
     def render(self) -> None:
         self.push_definition_comments()
-        snake_case_name = snake_case(self.message_field_name)
         self.push(
-            f'{self.message_field_name} {self.message_field_type} `json:"{snake_case_name}"`'
+            f'{self.message_field_name} {self.message_field_type} `json:"{self.d.name}"`'
         )
         self.push_typing_hint_inline_comment()
 
